@@ -141,10 +141,29 @@ func (c *Ctx) runOptDeleg() {
 			}
 		}
 	}
-	builderField := func(m ssa.Value) bool {
-		fr, ok := core.AsFieldLoad(m)
-		return ok && fr.Owner == "argBuilder"
+	// a table handed to a private step (`setSubtype(a.namedSub, name, st, rv)`) is the builder's table at every call site
+	var builderFieldD func(m ssa.Value, d int) bool
+	builderFieldD = func(m ssa.Value, d int) bool {
+		if fr, ok := core.AsFieldLoad(m); ok && fr.Owner == "argBuilder" {
+			return true
+		}
+		prm, ok := core.Strip(m).(*ssa.Parameter)
+		if !ok || d > 2 || !p.PrivateHelper(prm.Parent()) {
+			return false
+		}
+		idx := paramIndex(prm)
+		sites := p.Callers(prm.Parent())
+		if idx < 0 || len(sites) == 0 {
+			return false
+		}
+		for _, site := range sites {
+			if idx >= len(site.Common().Args) || !builderFieldD(site.Common().Args[idx], d+1) {
+				return false
+			}
+		}
+		return true
 	}
+	builderField := func(m ssa.Value) bool { return builderFieldD(m, 0) }
 	innerOfBuilder := func(m ssa.Value) bool {
 		for _, sv := range core.Sources(m) {
 			switch x := core.Strip(sv).(type) {
